@@ -1,7 +1,9 @@
 package gprops
 
 import (
+	"bufio"
 	"fmt"
+	"io"
 	"net"
 	"path/filepath"
 	"strings"
@@ -18,18 +20,96 @@ import (
 func init() { Registry["C17"] = C17 }
 
 type c17Scn struct {
-	MsgsA   int   `json:"msgs_a"`  // messages A -> B
-	MsgsB   int   `json:"msgs_b"`  // messages B -> A
-	Size    int   `json:"size"`    // 0 small (2 chunks), 1 three chunks, 2 about twenty chunks
-	Latency int   `json:"latency"` // index into c17Latencies (virtual time per Write)
-	TxBuf   int   `json:"txbuf"`   // 0 transport without TxBufferLen, 1 reports 0, 2 reports more than remains, 3 reports a draining queue
+	MsgsA   int `json:"msgs_a"`  // messages A -> B
+	MsgsB   int `json:"msgs_b"`  // messages B -> A
+	Size    int `json:"size"`    // 0 small (2 chunks), 1 three chunks, 2 about twenty chunks
+	Latency int `json:"latency"` // index into c17Latencies (virtual time per Write)
+	TxBuf   int `json:"txbuf"`   // 0 transport without TxBufferLen, 1 reports 0, 2 reports more than remains, 3 reports a draining queue
+	// Offset > 0: station B is a scripted CMS-style remote that accepts A's (single) proposal at this
+	// offset ("FS !n", or "FS An" if OffA) - the resumed-transfer path of the sender
+	Offset  int   `json:"offset,omitempty"`
+	OffA    bool  `json:"offset_answer_a,omitempty"`
 	Choices []int `json:"choices,omitempty"`
 }
 
 var c17Latencies = []time.Duration{0, 100 * time.Millisecond, 300 * time.Millisecond}
 
 func (s c17Scn) describe() string {
-	return fmt.Sprintf("msgs=%d/%d size=%d latency=%v txbuf=%d", s.MsgsA, s.MsgsB, s.Size, c17Latencies[s.Latency], s.TxBuf)
+	d := fmt.Sprintf("msgs=%d/%d size=%d latency=%v txbuf=%d", s.MsgsA, s.MsgsB, s.Size, c17Latencies[s.Latency], s.TxBuf)
+	if s.Offset > 0 {
+		d += fmt.Sprintf(" scripted remote accepting at offset %d (A-form: %v)", s.Offset, s.OffA)
+	}
+	return d
+}
+
+// c17Remote is the scripted CMS-style remote of the offset scenarios (slave: it speaks first).
+func c17Remote(sc c17Scn, c net.Conn) error {
+	rd := bufio.NewReader(c)
+	line := func() (string, error) { s, err := rd.ReadString('\r'); return strings.TrimSuffix(s, "\r"), err }
+	if _, err := c.Write([]byte("[WL2K-5.0-B2FWIHJM$]\rCMS via test >\r")); err != nil {
+		return err
+	}
+	csize := 0
+	for {
+		l, err := line()
+		if err != nil {
+			return err
+		}
+		if f := strings.Fields(l); len(f) == 6 && f[0] == "FC" {
+			fmt.Sscan(f[4], &csize)
+		}
+		if strings.HasPrefix(l, "F> ") {
+			break
+		}
+	}
+	off := sc.Offset
+	if off >= csize {
+		off = csize - 1
+	}
+	form := "!"
+	if sc.OffA {
+		form = "A"
+	}
+	if _, err := fmt.Fprintf(c, "FS %s%d\r", form, off); err != nil {
+		return err
+	}
+	// the transfer: SOH len header, (STX n data)*, EOT checksum
+	b, err := rd.ReadByte()
+	if err != nil || b != 1 {
+		return fmt.Errorf("remote: expected SOH, got %x %v", b, err)
+	}
+	n, _ := rd.ReadByte()
+	if _, err := io.ReadFull(rd, make([]byte, n)); err != nil {
+		return err
+	}
+	for {
+		b, err := rd.ReadByte()
+		if err != nil {
+			return err
+		}
+		if b == 4 {
+			rd.ReadByte()
+			break
+		}
+		if b != 2 {
+			return fmt.Errorf("remote: unexpected byte %x in the transfer", b)
+		}
+		k, _ := rd.ReadByte()
+		size := int(k)
+		if size == 0 {
+			size = 256
+		}
+		if _, err := io.ReadFull(rd, make([]byte, size)); err != nil {
+			return err
+		}
+	}
+	if _, err := c.Write([]byte("FF\r")); err != nil {
+		return err
+	}
+	if l, err := line(); err != nil || l != "FQ" {
+		return fmt.Errorf("remote: expected FQ, got %q %v", l, err)
+	}
+	return nil
 }
 
 func c17Body(size, i int) string {
@@ -137,10 +217,17 @@ func c17Harness(sc c17Scn, o *c17Obs) func() {
 		}
 		for i := 0; i < 2; i++ {
 			i := i
+			if i == 1 && sc.Offset > 0 {
+				vs.GoNamed("scripted-remote", true, func() {
+					o.errs[1] = c17Remote(sc, conns[1])
+					o.returned[1] = true
+				})
+				continue
+			}
 			vs.GoNamed("session-"+calls[i], true, func() {
 				s := fbb.NewSession(calls[i], calls[1-i], "AA00aa", o.boxes[i])
 				s.SetLogger(sess.Discard)
-				s.IsMaster(i == 0)
+				s.IsMaster(i == 0 && sc.Offset == 0) // the scripted remote speaks first (it is the master)
 				s.SetStatusUpdater(c17Updater{calls[i], &o.recs})
 				_, o.errs[i] = s.Exchange(conns[i])
 				o.returned[i] = true
@@ -224,8 +311,10 @@ func c17Judge(sc c17Scn, o *c17Obs, res *vs.Result) []c17Finding {
 		bm = append(bm, fmt.Sprintf("BMSG%08d", k))
 	}
 	expect("N0AAA", "send", am)
-	expect("N0BBB", "recv", am)
-	expect("N0BBB", "send", bm)
+	if sc.Offset == 0 {
+		expect("N0BBB", "recv", am)
+		expect("N0BBB", "send", bm)
+	}
 	expect("N0AAA", "recv", bm)
 	for k := range seen {
 		ok := false
@@ -279,6 +368,14 @@ func C17(args []string) {
 					}
 					scns = append(scns, c17Scn{MsgsA: m[0], MsgsB: m[1], Size: size, Latency: lat, TxBuf: tx})
 				}
+			}
+		}
+	}
+	// the sender's resumed-transfer path: a scripted remote accepts the proposal at an offset
+	for _, off := range []int{1, 40, 125, 100000} { // 100000: clipped to the compressed size - 1
+		for _, size := range []int{1, 2} {
+			for _, lat := range []int{0, 2} {
+				scns = append(scns, c17Scn{MsgsA: 1, Size: size, Latency: lat, TxBuf: lat, Offset: off, OffA: off == 40})
 			}
 		}
 	}
